@@ -390,6 +390,9 @@ func runCase(c *checker, sc schemaCase, optBits []int, specDump string, siblings
 				st("C15").Evaluations++
 				fail("C15", "oracle", sc.class, sc.stream, o.String(), sc.text, "Generate", "accepted", "error: "+gerr.Error(), "a well-formed const / enum / opcode schema is rejected")
 			}
+			if sc.stream == "names" {
+				continue // whether a name collides can depend on the option set
+			}
 			return
 		}
 		var sibSrc [][]byte
@@ -421,6 +424,14 @@ func runCase(c *checker, sc schemaCase, optBits []int, specDump string, siblings
 			st("C15").Distribution[sc.stream+"/"+e.kind]++
 			goName := exposed(e.name, o.private)
 			g, ok := consts[goName]
+			if !ok && e.kind == "enum" && strings.HasPrefix(e.name, e.enumT+"_") {
+				// an unexported type whose name would be a Go keyword / predeclared identifier / imported package gets
+				// an underscore appended by the generator (Len -> len_), and so do its constants (len__A)
+				alt := exposed(e.enumT, o.private) + "_" + strings.TrimPrefix(e.name, e.enumT)
+				if g, ok = consts[alt]; ok {
+					goName = alt
+				}
+			}
 			if !ok {
 				fail("C15", "oracle", e.kind, sc.stream, o.String(), sc.text, "constant "+goName, "declared", "missing", "the schema's constant does not appear in the generated package")
 				continue
@@ -440,7 +451,7 @@ func runCase(c *checker, sc schemaCase, optBits []int, specDump string, siblings
 				}
 				if e.kind == "enum" {
 					named, isNamed := g.typ.(*types.Named)
-					if !isNamed || named.Obj().Name() != exposed(e.enumT, o.private) {
+					if !isNamed || (named.Obj().Name() != exposed(e.enumT, o.private) && named.Obj().Name() != exposed(e.enumT, o.private)+"_") {
 						bad("typed constant of "+e.enumT, g.typ.String())
 					} else if b, ok := named.Underlying().(*types.Basic); !ok || b.Kind() != basicKind[goBase(e.base)] {
 						bad("base type "+e.base, named.Underlying().String())
@@ -1054,6 +1065,44 @@ func runImportCases(c *checker, work string, rng *rand.Rand, n int) {
 	}
 }
 
+// nameCorners: small schemas whose names or strings meet what the generator itself writes.
+func nameCorners() []string {
+	var out []string
+	for _, n := range []string{"size", "Size", "marshalBebop", "MarshalBebopTo", "unmarshalBebop", "mustUnmarshalBebop", "encodeBebop", "DecodeBebop", "opCode", "getA", "bbp", "buf", "at", "err", "r", "w", "ln1", "i1", "k1", "v1", "iohelp", "io", "bebop", "time", "string", "len", "type", "func", "range", "map", "nil", "true", "int", "byte", "error", "any", "new", "make", "copy", "panic", "init", "main", "_"} {
+		out = append(out,
+			"struct A {\n\tint32 "+n+";\n\tstring[] other;\n\tmap[string, int32] m;\n}\n",
+			"readonly struct A {\n\tint32 "+n+";\n\tdate d;\n}\n",
+			"message A {\n\t1 -> int32 "+n+";\n\t2 -> string[] other;\n}\n",
+			"union U {\n\t1 -> struct A {\n\t\tint32 "+n+";\n\t}\n\t2 -> message B {\n\t\t1 -> guid "+n+";\n\t}\n}\n")
+	}
+	out = append(out,
+		"struct A {\n\tint32 x;\n\tint32 X;\n}\n",
+		"readonly struct A {\n\tint32 size;\n\tint32 Size;\n}\n",
+		"message A {\n\t1 -> int32 val;\n\t2 -> string Val;\n}\n")
+	for _, n := range []string{"Len", "Make", "New", "Copy", "Panic", "Print", "Cap", "Append", "Error", "String", "Type", "Func", "Nil", "True", "Int", "Any", "Bebop", "Iohelp", "Io", "Time", "Record", "Size", "Init", "Main"} {
+		out = append(out,
+			"struct "+n+" {\n\tint32 x;\n}\nstruct Holder {\n\t"+n+" one;\n\t"+n+"[] many;\n\tmap[string, "+n+"] byName;\n\tdate d;\n}\n",
+			"message "+n+" {\n\t1 -> int32 x;\n}\nmessage Holder {\n\t1 -> "+n+" one;\n\t2 -> "+n+"[] many;\n}\n",
+			"enum "+n+" {\n\tA = 1;\n}\nstruct Holder {\n\t"+n+" e;\n\t"+n+"[] es;\n}\n")
+	}
+	// helper names of one definition that are the names of another
+	out = append(out,
+		"struct A {\n\tint32 x;\n}\nstruct MakeA {\n\tA a;\n}\n",
+		"struct A {\n\tint32 x;\n}\nstruct MakeAFromBytes {\n\tA a;\n}\n",
+		"readonly struct A {\n\tint32 x;\n}\nstruct NewA {\n\tA a;\n}\n",
+		"enum E {\n\tA = 1;\n}\nstruct E_A {\n\tE e;\n}\n",
+		"const int32 A = 1;\nstruct A {\n\tint32 x;\n}\n",
+		"[opcode(0x1)]\nstruct A {\n\tint32 x;\n}\nconst uint32 AOpCode = 2;\n")
+	// strings that end up in generated comments, tags and literals
+	for _, m := range []string{`a\nb`, `a\rb`, `say \"hi\"`, "back`quote", `*/ x /*`, `%d %s %%`, `tab\there`, ``} {
+		out = append(out,
+			"message A {\n\t[deprecated(\""+m+"\")]\n\t1 -> int32 x;\n}\nenum E {\n\t[deprecated(\""+m+"\")]\n\tA = 1;\n}\nstruct S {\n\t[deprecated(\""+m+"\")]\n\tint32 y;\n}\n",
+			"struct A {\n\t//[tag(json:\""+m+"\")]\n\tint32 x;\n\t//[tag(db:\""+m+"\")]\n\t//[tag(other)]\n\tstring y;\n}\n",
+			"const string s = \""+m+"\";\n")
+	}
+	return out
+}
+
 func fixtures(repo string, dirs ...string) [][]byte {
 	var out [][]byte
 	for _, d := range dirs {
@@ -1164,6 +1213,17 @@ func main() {
 			}
 			runCase(c, schemaCase{stream: "fixture", text: t, class: "fixture"}, fo, "", sib...)
 		}
+	}
+	// 2b. names and texts that meet the generator's own identifiers and literals: fields named like generated methods,
+	// fields that differ only in the case of their first letter, definitions named like Go builtins, keywords and the
+	// generator's helper prefixes, tags and deprecation messages with quotes / backquotes / line breaks. Each must be
+	// rejected or compile, under every option set (five of them in the quick tier).
+	nameOpts := allOpts
+	if *tier != "thorough" {
+		nameOpts = []int{0, 4, 8, 12, 31} // none; tags; private; private + tags; all
+	}
+	for _, t := range nameCorners() {
+		runCase(c, schemaCase{stream: "names", text: []byte(t), class: "names"}, nameOpts, "")
 	}
 	// 3. consts / enums / [flags] / opcodes in every literal form
 	for i := 0; i < nOwn; i++ {
